@@ -3,6 +3,16 @@ from harness import core
 from harness.suites import be
 
 
+MANIFEST = dict(
+    text='Lean 4 theorems over a model of stone/backend.py (brace escaping vs the str.format subset, emit/indent/block '
+         'semantics, POSIX path containment as an iff, manifest) tied to the code by a translator for the '
+         'replace-chain and by differential runs of the real Backend against the compiled model.',
+    note='Trusted: Lean kernel, translator, correspondence generators, str.format / textwrap / os.path as external '
+         'calls (re-implemented in the model and compared on every run). File-system effects are observed, not proved.',
+    technique='Lean 4 proof + translator + differential correspondence',
+    design='5 C18')
+
+
 def run(ck):
     ck.build_and_audit()
     be.suite_format(ck)
